@@ -1,6 +1,7 @@
 package props
 
 import (
+	"bytes"
 	"context"
 	"errors"
 	"fmt"
@@ -40,13 +41,26 @@ type ktCase struct {
 	TTL     int64      `json:"ttl,omitempty"` // 0: no expiration; else ExpiryWriting(TTL)
 	InitCap int        `json:"init_cap,omitempty"`
 	Actions []ktAction `json:"actions"`
+	// SaveLoad: the script may contain 'saveload' actions (SaveCacheTo + LoadCacheFrom into a fresh cache of the same
+	// configuration, compared with the model); only for key types gob can encode without registration.
+	SaveLoad bool `json:"save_load,omitempty"`
 }
 
 var ktTypes = []string{"string", "struct-string-int", "struct-padded", "array-of-strings", "float64", "any", "struct-any", "pointer", "struct-float", "nested"}
 
-func genKT(t *rapid.T) ktCase {
+var ktGobTypes = []string{"string", "struct-string-int", "struct-padded", "array-of-strings", "float64", "struct-float", "nested"}
+
+func genKTSaveLoad(t *rapid.T) ktCase {
+	c := genKTOf(t, ktGobTypes)
+	c.SaveLoad = true
+	return c
+}
+
+func genKT(t *rapid.T) ktCase { return genKTOf(t, ktTypes) }
+
+func genKTOf(t *rapid.T, types []string) ktCase {
 	c := ktCase{
-		KeyType: pick(t, "keytype", ktTypes...),
+		KeyType: pick(t, "keytype", types...),
 		IDs:     pick(t, "ids", 3, 8, 40, 300),
 		InitCap: pick(t, "initcap", 0, 0, 1, 64),
 	}
@@ -60,6 +74,13 @@ func genKT(t *rapid.T) ktCase {
 		"invalidate", "get", "get", "bulkget", "iter", "invalidateall", "setexpiresafter"}
 	if c.TTL > 0 {
 		ops = append(ops, "advance", "advance", "cleanup")
+	}
+	gobOK := false
+	for _, g := range ktGobTypes {
+		gobOK = gobOK || g == c.KeyType
+	}
+	if gobOK {
+		ops = append(ops, "saveload", "saveload")
 	}
 	lo := pick(t, "lenclass", 1, 10, 60)
 	c.Actions = rapid.SliceOfN(rapid.Custom(func(t *rapid.T) ktAction {
@@ -213,6 +234,12 @@ func runKTGeneric[K comparable](c ktCase, mk func(id, call int) K, idOf func(K) 
 	}
 	cache := otter.Must(opts)
 	defer cache.StopAllGoroutines()
+	mkTarget := func() *otter.Cache[K, string] {
+		o2 := *opts
+		o2.OnAtomicDeletion = nil
+		return otter.Must(&o2)
+	}
+	saveLoads := 0
 	model := map[int]*ktEntry{}
 	calls := 0
 	key := func(id int) K { calls++; return mk(id, calls) }
@@ -508,6 +535,44 @@ func runKTGeneric[K comparable](c ktCase, mk func(id, call int) K, idOf func(K) 
 			if fmt.Sprint(seenIDs) != fmt.Sprint(wantIDs) {
 				return fail(i, "All() yields %v, model holds %v", seenIDs, wantIDs), classes, false
 			}
+		case "saveload":
+			var buf bytes.Buffer
+			if err := otter.SaveCacheTo(cache, &buf); err != nil {
+				return fail(i, "SaveCacheTo: %v", err), classes, false
+			}
+			if err := reconcile(); err != nil { // saving runs the pending maintenance first
+				return err, classes, false
+			}
+			dst := mkTarget()
+			lerr := otter.LoadCacheFrom(dst, &buf)
+			var derr error
+			if lerr != nil {
+				derr = fail(i, "LoadCacheFrom: %v", lerr)
+			}
+			n := 0
+			for mid := 0; mid < c.IDs && derr == nil; mid++ {
+				e, l := live(mid)
+				g, ok := dst.GetEntryQuietly(key(mid))
+				if l {
+					n++
+				}
+				switch {
+				case ok != l:
+					derr = fail(i, "save/load: key #%d is %v in the source (%v) but present=%v in the reloaded cache", mid, map[bool]string{true: "live", false: "absent or expired"}[l], descKT(e, l), ok)
+				case ok && (g.Value != e.val || idOf(g.Key) != mid):
+					derr = fail(i, "save/load: key #%d reloaded as (#%d,%q), the source holds %q", mid, idOf(g.Key), g.Value, e.val)
+				case ok && c.TTL > 0 && g.ExpiresAtNano != e.exp:
+					derr = fail(i, "save/load: key #%d reloaded with ExpiresAtNano %d, the source has %d", mid, g.ExpiresAtNano, e.exp)
+				}
+			}
+			if derr == nil && dst.EstimatedSize() != n {
+				derr = fail(i, "save/load: the reloaded cache holds %d entries, the source %d live ones", dst.EstimatedSize(), n)
+			}
+			dst.StopAllGoroutines()
+			if derr != nil {
+				return derr, classes, false
+			}
+			saveLoads++
 		case "advance":
 			clock.Advance(a.Dur)
 		case "cleanup":
@@ -536,6 +601,12 @@ func runKTGeneric[K comparable](c ktCase, mk func(id, call int) K, idOf func(K) 
 	}
 	if onExpired > 0 {
 		classes = append(classes, "op-on-expired-unswept")
+	}
+	if saveLoads > 0 {
+		classes = append(classes, "save-load")
+	}
+	if c.SaveLoad {
+		return nil, classes, saveLoads > 0 && len(model) > 0
 	}
 	return nil, classes, len(c.Actions) >= 5
 }
@@ -645,5 +716,15 @@ func TestC01_KeyTypes(t *testing.T) {
 			"return values, the callbacks' view, loader arguments, All(), EstimatedSize and a read-back of every id through a fresh key are compared with a map-with-deadlines model after every action (evictions are reconciled through the atomic handler); non-trivial = at least 5 actions",
 		Assumptions: []string{"the Go runtime and sync primitives are trusted", "NaN keys (never equal to themselves) are not generated"},
 		Gen:         genKT, Run: runKT,
+	})
+}
+
+func TestC19_KeyTypes(t *testing.T) {
+	propMain(t, propSpec[ktCase]{
+		Prop: "C19", Test: "KeyTypes",
+		Rule: "the key-type interpreter of C01 (Cache[K,string] with string / struct / padded struct / array / float / nested keys incl. zero-valued keys and fields, the empty string, +0 and -0; unbounded or MaximumSize, optional ExpiryWriting) with 'saveload' actions: SaveCacheTo, then LoadCacheFrom into a fresh cache of the same configuration; " +
+			"oracle: every id live in the model is found in the reloaded cache through a freshly built key with its value and expiration deadline, nothing else is, and the reloaded cache holds exactly as many entries; non-trivial = at least one save/load of a non-empty cache",
+		Assumptions: []string{"key types that gob cannot encode without registration (interfaces, pointers) are not saved"},
+		Gen:         genKTSaveLoad, Run: runKT,
 	})
 }
